@@ -64,7 +64,8 @@ const TYPE_WORDS: &[&str] = &[
 ];
 const COMPRESS: &[&str] = &["gz", "gzip", "bz2", "xz", "xzip", "lz4"];
 const NONLOG: &[&str] = &["png", "zip", "exe", "7z", "a", "c", "tgz", "so", "bz", "py", "html"];
-const UNKNOWN: &[&str] = &["old", "bak", "1", "20230101", "99999999999", "-1", "+5", "x", "LOG1", "tmp", "0", "", "é", "日本"];
+// the last two are longer than any recognised word (17+ bytes): rotation stamps such as `.2023-01-01T00-00-00Z` (seeded change C16-d ignored extensions over 16 bytes)
+const UNKNOWN: &[&str] = &["old", "bak", "1", "20230101", "99999999999", "-1", "+5", "x", "LOG1", "tmp", "0", "", "é", "日本", "2023-01-01T00-00-00Z", "backup-before-upgrade-of-the-host"];
 const STEMS: &[&str] = &["a", "foo", "log_media", "media_log", "LOG_x", "x_LOG", "system@0005", "user-1000", "", "my.host", "file name"];
 const JUNK: &[u8] = b"~-,?;";
 const JUNKL: &[u8] = b"~-,?;.";
@@ -185,7 +186,7 @@ fn clean_base(rng: &mut Rng) -> Vec<u8> {
             0..=3 => rng.pick(TYPE_WORDS),
             4..=5 => rng.pick(COMPRESS),
             6 => rng.pick(NONLOG),
-            _ => rng.pick(&["old", "bak", "1", "20230101", "x", "tmp", "0"]),
+            _ => rng.pick(&["old", "bak", "1", "20230101", "x", "tmp", "0", "2023-01-01T00-00-00Z", "rotated-2023-01-01_00-00-00"]),
         };
         name.extend(recase(rng, w));
     }
@@ -227,7 +228,7 @@ pub fn oracle(op: &Opts, out: &mut dyn Write) {
         if rf != "Unparsable" && rf != rt { o(out, "walk-vs-named-type", format!("{} {} {}", h, rf, rt)); } else { o(out, "ok", String::new()); }
         if (!from_given && i % 5 == 4) || b.is_empty() { continue; }
         if from_given {
-            for k in ["1", "old"] {
+            for k in ["1", "old", "2023-01-01T00-00-00Z"] {
                 let mut n2 = b.clone(); n2.push(b'.'); n2.extend(k.as_bytes());
                 let r = cls(&n2, ua);
                 if r != base { o(out, "rotation", format!("{} +.{} {} vs {}", h, k, r, base)); } else { o(out, "ok", String::new()); }
@@ -244,7 +245,7 @@ pub fn oracle(op: &Opts, out: &mut dyn Write) {
             continue;
         }
         // rotation suffixes
-        for k in ["1", "20230101", "old", "BAK", "99999999999"] {
+        for k in ["1", "20230101", "old", "BAK", "99999999999", "2023-01-01T00-00-00Z", "backup-before-upgrade-of-the-host"] {
             let mut n2 = b.clone(); n2.push(b'.'); n2.extend(k.as_bytes());
             let r = cls(&n2, ua);
             if r != base { o(out, "rotation", format!("{} +.{} {} vs {}", h, k, r, base)); } else { o(out, "ok", String::new()); }
